@@ -53,6 +53,9 @@ def impl_run(job):
         kw["Interface"] = ModelCSimInterface(m)
     if o["src"] == "iface_safe":
         kw["Interface"] = SafeModelCSimInterface(m)
+    if o.get("edit"):
+        # the initial condition is edited after the interface (if any) was built: the call must report the current one
+        m.set_species({s: float(x) for s, x in zip(job["species"], job["x0"])})
     vol = {"off": False, "flag": True, "number": 1.5}.get(o["volume"])
     if o["volume"] in ("object", "dividing"):
         vol = StochasticTimeThresholdVolume(1.25, 2.0, 0.0)
